@@ -8,13 +8,20 @@
   Only property theorems, their `def …_full : Prop` companions, witnesses and non-vacuity examples
   live here; helper lemmas are in `Lemmas/Resp*.lean`, concrete exchanges in `Lemmas/RespExamples.lean`.
 
-  Clauses that are FALSE of the unchanged code are kept visible as `def …_full : Prop` next to a
+  Clauses that are FALSE of the code are kept visible as `def …_full : Prop` next to a
   `…_partial` theorem (proved under the hypothesis that excludes the defect class, stated on the
   input) and a kernel-checked `…_witness`:
-    F22  solicited gzip + Content-Length/close  → written with no framing on a kept-alive connection
-    F1   header-only response with declared trailers → head never terminated
     F25  `Connection: <name>, close` from an HTTP/1.1 origin → nominated field forwarded
   and, for the flush policy, a zero-length write between the two halves of a split pattern.
+
+  Repaired in the code and therefore proved at full strength here (no exclusions):
+    F22  solicited gzip + Content-Length/close: the gunzipped body is re-framed (chunked for an
+         HTTP/1.1 exchange, close-delimited otherwise)      → `c02_keepalive_implies_delimited`,
+                                                               `c02_gunzip_framed`
+    F1   header-only response with declared trailers: the `Trailer:` line and the head are
+         terminated                                          → `c02_header_only_no_body`,
+                                                               `c02_framing_self_delimiting`
+    F18  an HTTP/1.0 client is never sent a chunked body    → `c02_http10_client_never_chunked`
 
   Hypotheses used throughout:
     `rc.rules = []` / `RulesOK rc`   no response-header rules / rules as the flag parser yields
@@ -137,12 +144,19 @@ theorem c02_nominated_removed_witness : ¬ c02_nominated_removed_full := by
 /-- HEAD / 1xx / 204 / 304: no body bytes are written, whatever the origin sent -/
 theorem c02_header_only_no_body {rc : ReqCtx} {o : OriginResp} {r : ClientResp}
     (h : processResponse rc o = .ok r) (hb : bodiless rc.method o.status = true) :
-    (r.framing = .none ∨ r.framing = .unterminatedHead) ∧ r.body = .dropped :=
+    r.framing = .none ∧ r.body = .dropped :=
   header_only_no_body h hb
 
 example : processResponse Ex.rcHead Ex.oLen = .ok Ex.rHeadLen ∧ bodiless Ex.rcHead.method Ex.oLen.status = true ∧
     Ex.rHeadLen.framing = .none :=
   ⟨Ex.evalHeadLen, by decide, rfl⟩
+
+/-- `304`, `Transfer-Encoding: chunked`, `Trailer: X-T` (the shape of the repaired F1): the head
+    writer lists `Trailer: X-T` and ends the head -/
+example : processResponse Ex.rcGet Ex.oHoTrailer = .ok Ex.rHoTrailer ∧
+    bodiless Ex.rcGet.method Ex.oHoTrailer.status = true ∧ originTrailers Ex.oHoTrailer ≠ [] ∧
+    outValues Ex.rHoTrailer Name.trailer = [[88, 45, 84]] :=
+  ⟨Ex.evalHoTrailer, by decide, by decide, by decide⟩
 
 /-- a response delimited by the end of the connection does close the connection -/
 theorem c02_framing_eof_closes {rc : ReqCtx} {o : OriginResp} {r : ClientResp}
@@ -152,63 +166,60 @@ theorem c02_framing_eof_closes {rc : ReqCtx} {o : OriginResp} {r : ClientResp}
 example : processResponse Ex.rcGet Ex.oEof = .ok Ex.rEof ∧ Ex.rEof.framing = .eof ∧ Ex.rEof.keepAlive = false :=
   ⟨Ex.evalEof, rfl, rfl⟩
 
-/-- FULL statement: a response after which the connection is kept open is delimited on the wire.
-    FALSE for the unchanged code (F22, F1), see the two witnesses below. -/
-def c02_keepalive_implies_delimited : Prop :=
-  ∀ (rc : ReqCtx) (o : OriginResp) (r : ClientResp), processResponse rc o = .ok r → r.keepAlive = true →
-    r.framing = .none ∨ (∃ n, r.framing = .cl n) ∨ (∃ ts, r.framing = .chunked ts)
-
-/-- keep-alive ⇒ delimited, outside the two defect classes (both stated on the input):
-    `InputF22` = gzip solicited by the proxy itself ∧ origin answers `Content-Encoding: gzip` ∧ the
-    response has a body ∧ is not chunked; `InputF1` = bodiless (HEAD/1xx/204/304) ∧ origin chunked ∧
-    declares trailers. -/
-theorem c02_keepalive_implies_delimited_partial {rc : ReqCtx} {o : OriginResp} {r : ClientResp}
-    (h : processResponse rc o = .ok r) (h22 : ¬ InputF22 rc o) (h1 : ¬ InputF1 rc o)
-    (hk : r.keepAlive = true) :
+/-- A response after which the connection is kept open is delimited on the wire: header-only,
+    `Content-Length`, or chunked — for EVERY request context and origin response (F22 and F1, which
+    used to be excluded here, are repaired). -/
+theorem c02_keepalive_implies_delimited {rc : ReqCtx} {o : OriginResp} {r : ClientResp}
+    (h : processResponse rc o = .ok r) (hk : r.keepAlive = true) :
     r.framing = .none ∨ (∃ n, r.framing = .cl n) ∨ (∃ ts, r.framing = .chunked ts) :=
-  keepalive_delimited h h22 h1 hk
+  keepalive_delimited h hk
 
-example : processResponse Ex.rcGetGz Ex.oGzChunked = .ok Ex.rGzChunked ∧ ¬ InputF22 Ex.rcGetGz Ex.oGzChunked ∧
-    ¬ InputF1 Ex.rcGetGz Ex.oGzChunked ∧ Ex.rGzChunked.keepAlive = true :=
-  ⟨Ex.evalGzChunked, by decide, by decide, rfl⟩
+/-- the shape of the repaired F22 (gzip solicited by the transport; `200 OK`, `Content-Encoding: gzip`,
+    `Content-Length: 20`): gunzipped, re-framed as chunked, connection kept open -/
+example : processResponse Ex.rcGetGz Ex.oGzLen = .ok Ex.rGzLen ∧ Ex.rGzLen.keepAlive = true ∧
+    Ex.rGzLen.body = .gunzip ∧ Ex.rGzLen.framing = .chunked [] :=
+  ⟨Ex.evalGzLen, rfl, rfl, rfl⟩
 
-/-- the two defective framings arise only from the two defect classes: a response written with no
-    framing at all on an open connection comes from `InputF22` … -/
-theorem c02_unframed_only_F22 {rc : ReqCtx} {o : OriginResp} {r : ClientResp}
-    (h : processResponse rc o = .ok r) (hf : r.framing = .unframed) : InputF22 rc o :=
-  unframed_is_F22 h hf
+/-- the shape of the repaired F1: connection kept open, header-only -/
+example : processResponse Ex.rcGet Ex.oHoTrailer = .ok Ex.rHoTrailer ∧ Ex.rHoTrailer.keepAlive = true ∧
+    Ex.rHoTrailer.framing = .none :=
+  ⟨Ex.evalHoTrailer, rfl, rfl⟩
 
-/-- … and a head that is never terminated comes from `InputF1` -/
-theorem c02_unterminated_only_F1 {rc : ReqCtx} {o : OriginResp} {r : ClientResp}
-    (h : processResponse rc o = .ok r) (hf : r.framing = .unterminatedHead) : InputF1 rc o :=
-  unterminated_is_F1 h hf
+/-- a body the proxy gunzipped itself (its length is lost) is never left without framing: it is sent
+    chunked, or the connection is closed behind it (F22 clause) -/
+theorem c02_gunzip_framed {rc : ReqCtx} {o : OriginResp} {r : ClientResp}
+    (h : processResponse rc o = .ok r) (hb : r.body = .gunzip) :
+    (∃ ts, r.framing = .chunked ts) ∨ (r.framing = .eof ∧ r.keepAlive = false) :=
+  gunzip_framed h hb
 
-/-- F22: GET, gzip solicited by the transport; `200 OK`, `Content-Encoding: gzip`,
-    `Content-Length: 20` → no length, no chunking, connection kept open -/
-theorem c02_unframed_witness :
-    ∃ rc o r, processResponse rc o = .ok r ∧ InputF22 rc o ∧ r.keepAlive = true ∧
-      r.framing = .unframed ∧ r.fields = [] :=
-  ⟨Ex.rcGetGz, Ex.oF22, Ex.rF22, Ex.evalF22, by decide, rfl, rfl, rfl⟩
+example : processResponse Ex.rcGetGz10 Ex.oGzLen = .ok Ex.rGzLen10 ∧ Ex.rGzLen10.body = .gunzip ∧
+    Ex.rGzLen10.framing = .eof ∧ Ex.rGzLen10.keepAlive = false :=
+  ⟨Ex.evalGzLen10, rfl, rfl, rfl⟩
 
-/-- F1: GET; `304 Not Modified`, `Transfer-Encoding: chunked`, `Trailer: X-T` → the head is never
-    terminated, connection kept open -/
-theorem c02_unterminated_head_witness :
-    ∃ rc o r, processResponse rc o = .ok r ∧ InputF1 rc o ∧ r.keepAlive = true ∧
-      r.framing = .unterminatedHead :=
-  ⟨Ex.rcGet, Ex.oF1, Ex.rF1, Ex.evalF1, by decide, rfl, rfl⟩
+/-- an HTTP/1.0 client is never sent a chunked body (F18 clause) -/
+theorem c02_http10_client_never_chunked {rc : ReqCtx} {o : OriginResp} {r : ClientResp}
+    (h0 : rc.reqMinor = 0) (h : processResponse rc o = .ok r) : ¬ isChunked r.framing :=
+  http10_never_chunked h0 h
 
-theorem c02_keepalive_implies_delimited_witness : ¬ c02_keepalive_implies_delimited := by
-  intro h
-  rcases h Ex.rcGetGz Ex.oF22 Ex.rF22 Ex.evalF22 rfl with h' | ⟨n, h'⟩ | ⟨ts, h'⟩ <;>
-    exact absurd h' (by simp [Ex.rF22])
+/-- HTTP/1.0 client with keep-alive, chunked origin response with a declared trailer: sent
+    close-delimited, without `Transfer-Encoding` and `Trailer` (an HTTP/1.1 client gets
+    `Ex.rChunked`, which is chunked) -/
+example : Ex.rcGet10.reqMinor = 0 ∧ processResponse Ex.rcGet10 Ex.oChunked = .ok Ex.rChunked10 ∧
+    Ex.rChunked10.framing = .eof ∧ Ex.rChunked10.keepAlive = false ∧
+    outValues Ex.rChunked10 Name.transferEncoding = [] ∧ outValues Ex.rChunked10 Name.trailer = [] ∧
+    isChunked Ex.rChunked.framing :=
+  ⟨rfl, Ex.evalChunked10, rfl, rfl, by decide, by decide, by decide⟩
 
 /-- the field lines written declare the framing used: an RFC 7230 §3.3.3 reader that knows the
     request method decides exactly the framing the writer used -/
 theorem c02_framing_declared {rc : ReqCtx} {o : OriginResp} {r : ClientResp} (hr : RulesOK rc)
-    (hm : rc.method ≠ Name.CONNECT) (h : processResponse rc o = .ok r)
-    (h1 : r.framing ≠ .unframed) (h2 : r.framing ≠ .unterminatedHead) :
+    (hm : rc.method ≠ Name.CONNECT) (h : processResponse rc o = .ok r) :
     FramingDeclared rc.method r :=
-  framing_declared hr hm h h1 h2
+  framing_declared hr hm h
+
+example : processResponse Ex.rcGet10 Ex.oChunked = .ok Ex.rChunked10 ∧ RulesOK Ex.rcGet10 ∧
+    Ex.rcGet10.method ≠ Name.CONNECT ∧ FramingDeclared Ex.rcGet10.method Ex.rChunked10 :=
+  ⟨Ex.evalChunked10, rulesOK_nil rfl, by decide, by decide⟩
 
 /-- **Self-delimiting**: a conforming reader consumes exactly this response, whatever follows it on
     the connection (`rest` is arbitrary): header-only, `Content-Length` (with a body of that length)
@@ -220,13 +231,9 @@ theorem c02_framing_self_delimiting {rc : ReqCtx} {o : OriginResp} {r : ClientRe
     (hfr : r.framing = .none ∨ (∃ n, r.framing = .cl n) ∨ (∃ ts, r.framing = .chunked ts))
     (rest : Bytes) :
     parseResponse rc.method (serialize r chunks trailers ++ rest) = some (expected r chunks trailers, rest) := by
-  have h1 : r.framing ≠ .unframed := by
-    rcases hfr with h' | ⟨n, h'⟩ | ⟨ts, h'⟩ <;> rw [h'] <;> simp
-  have h2 : r.framing ≠ .unterminatedHead := by
-    rcases hfr with h' | ⟨n, h'⟩ | ⟨ts, h'⟩ <;> rw [h'] <;> simp
   have h3 : r.framing ≠ .eof := by
     rcases hfr with h' | ⟨n, h'⟩ | ⟨ts, h'⟩ <;> rw [h'] <;> simp
-  exact parseResponse_serialize rc.method r chunks trailers rest hwf htr (framing_declared hr hm h h1 h2) hfit h3
+  exact parseResponse_serialize rc.method r chunks trailers rest hwf htr (framing_declared hr hm h) hfit h3
 
 /-- a syntactically well-formed origin head (`OriginHeadWF o`: HTTP/1.0–1.9, status < 1000, no LF in
     reason phrase or values, non-empty token names) is written as a well-formed head -/
@@ -234,22 +241,30 @@ theorem c02_head_well_formed {rc : ReqCtx} {o : OriginResp} {r : ClientResp} (hw
     (hrules : rc.rules = []) (h : processResponse rc o = .ok r) : HeadWF r :=
   headWF_of_origin hwf hrules h
 
-/-- **Self-delimiting, all hypotheses on the input**: for a well-formed origin response outside the
-    defect classes F22 / F1, on a connection that is kept open, a conforming reader consumes exactly
-    this response, whatever follows it. -/
+/-- **Self-delimiting, all hypotheses on the input**: for a well-formed origin response, on a
+    connection that is kept open, a conforming reader consumes exactly this response, whatever
+    follows it. -/
 theorem c02_framing_self_delimiting_origin {rc : ReqCtx} {o : OriginResp} {r : ClientResp}
     (hwf : OriginHeadWF o) (hrules : rc.rules = []) (hm : rc.method ≠ Name.CONNECT)
-    (h : processResponse rc o = .ok r) (h22 : ¬ InputF22 rc o) (h1 : ¬ InputF1 rc o)
-    (hk : r.keepAlive = true)
+    (h : processResponse rc o = .ok r) (hk : r.keepAlive = true)
     (chunks : List Bytes) (trailers : List (Bytes × Bytes)) (htr : ∀ f ∈ trailers, LineWF f)
     (hfit : BodyFits r chunks) (rest : Bytes) :
     parseResponse rc.method (serialize r chunks trailers ++ rest) = some (expected r chunks trailers, rest) :=
   c02_framing_self_delimiting (rulesOK_nil hrules) hm h (headWF_of_origin hwf hrules h) chunks trailers htr
-    hfit (keepalive_delimited h h22 h1 hk) rest
+    hfit (keepalive_delimited h hk) rest
 
-example : OriginHeadWF Ex.oChunked ∧ ¬ InputF22 Ex.rcGet Ex.oChunked ∧ ¬ InputF1 Ex.rcGet Ex.oChunked ∧
-    Ex.rChunked.keepAlive = true :=
-  ⟨⟨by decide, by decide, by decide, by decide⟩, by decide, by decide, rfl⟩
+example : OriginHeadWF Ex.oChunked ∧ Ex.rChunked.keepAlive = true :=
+  ⟨⟨by decide, by decide, by decide, by decide⟩, rfl⟩
+
+/-- the shapes of the repaired F22 and F1 satisfy the hypotheses as well -/
+example : OriginHeadWF Ex.oGzLen ∧ Ex.rcGetGz.rules = [] ∧ Ex.rcGetGz.method ≠ Name.CONNECT ∧
+    processResponse Ex.rcGetGz Ex.oGzLen = .ok Ex.rGzLen ∧ Ex.rGzLen.keepAlive = true ∧
+    BodyFits Ex.rGzLen [[104, 105]] :=
+  ⟨⟨by decide, by decide, by decide, by decide⟩, rfl, by decide, Ex.evalGzLen, rfl, by decide⟩
+
+example : OriginHeadWF Ex.oHoTrailer ∧ processResponse Ex.rcGet Ex.oHoTrailer = .ok Ex.rHoTrailer ∧
+    Ex.rHoTrailer.keepAlive = true ∧ BodyFits Ex.rHoTrailer [] :=
+  ⟨⟨by decide, by decide, by decide, by decide⟩, Ex.evalHoTrailer, rfl, by decide⟩
 
 /-- a chunked response with a declared trailer, written as two chunks -/
 example : processResponse Ex.rcGet Ex.oChunked = .ok Ex.rChunked ∧ RulesOK Ex.rcGet ∧
@@ -271,7 +286,7 @@ theorem c02_framing_eof_reads_to_end {rc : ReqCtx} {o : OriginResp} {r : ClientR
     (chunks : List Bytes) (trailers : List (Bytes × Bytes)) (hf : r.framing = .eof) :
     parseResponse rc.method (serialize r chunks trailers) = some (expected r chunks trailers, []) :=
   parseResponse_serialize_eof rc.method r chunks trailers hwf
-    (framing_declared hr hm h (by rw [hf]; simp) (by rw [hf]; simp)) hf
+    (framing_declared hr hm h) hf
 
 example : processResponse Ex.rcGet Ex.oEof = .ok Ex.rEof ∧ HeadWF Ex.rEof ∧ Ex.rEof.framing = .eof :=
   ⟨Ex.evalEof, by decide, rfl⟩
@@ -283,8 +298,7 @@ structure Served where
   o : OriginResp
   x : Exchange
 
-/-- the exchange is what the model says, is written as a well-formed head, and is outside the
-    defect classes F22 / F1 -/
+/-- the exchange is what the model says and is written as a well-formed head -/
 structure Served.Good (s : Served) : Prop where
   model : processResponse s.rc s.o = .ok s.x.resp
   method : s.x.method = s.rc.method
@@ -293,8 +307,6 @@ structure Served.Good (s : Served) : Prop where
   headWF : HeadWF s.x.resp
   trailersWF : ∀ f ∈ s.x.trailers, LineWF f
   bodyFits : BodyFits s.x.resp s.x.chunks
-  notF22 : ¬ InputF22 s.rc s.o
-  notF1 : ¬ InputF1 s.rc s.o
 
 /-- **Sequence theorem**: for any list of exchanges on one client connection, the bytes the
     connection carries (`connBytes`: the serialisations, up to and including the first response
@@ -308,29 +320,31 @@ theorem c02_sequence (ss : List Served) (h : ∀ s ∈ ss, s.Good) :
   intro x hx
   obtain ⟨s, hs, rfl⟩ := List.mem_map.mp hx
   have g := h s hs
-  have h1 : s.x.resp.framing ≠ .unframed := fun hf => g.notF22 (unframed_is_F22 g.model hf)
-  have h2 : s.x.resp.framing ≠ .unterminatedHead := fun hf => g.notF1 (unterminated_is_F1 g.model hf)
   refine ⟨g.headWF, g.trailersWF, ?_, g.bodyFits, fun hf => eof_closes g.model hf⟩
   rw [g.method]
-  exact framing_declared g.rules g.notConnect g.model h1 h2
+  exact framing_declared g.rules g.notConnect g.model
 
-/-- chunked with trailer, then Content-Length, then 304, then a close-delimited HTTP/1.0 response -/
+/-- chunked with trailer, then Content-Length, then a gunzipped body re-framed as chunked (the shape of
+    the repaired F22), then a 304 with a declared trailer (the shape of the repaired F1), then a
+    close-delimited HTTP/1.0 response -/
 example :
     let ss : List Served :=
       [⟨Ex.rcGet, Ex.oChunked, ⟨Ex.rcGet.method, Ex.rChunked, [[104, 105], [33]], [([88, 45, 83, 117, 109], [52, 50])]⟩⟩,
        ⟨Ex.rcGet, Ex.oLen, ⟨Ex.rcGet.method, Ex.rLen, [[49, 50, 51, 52, 53]], []⟩⟩,
-       ⟨Ex.rcGet, Ex.oNotMod, ⟨Ex.rcGet.method, Ex.rNotMod, [], []⟩⟩,
+       ⟨Ex.rcGetGz, Ex.oGzLen, ⟨Ex.rcGetGz.method, Ex.rGzLen, [[104, 105]], []⟩⟩,
+       ⟨Ex.rcGet, Ex.oHoTrailer, ⟨Ex.rcGet.method, Ex.rHoTrailer, [], []⟩⟩,
        ⟨Ex.rcGet, Ex.oEof, ⟨Ex.rcGet.method, Ex.rEof, [[98, 121, 101]], []⟩⟩]
-    (∀ s ∈ ss, s.Good) ∧ (served (ss.map (·.x))).length = 4 := by
+    (∀ s ∈ ss, s.Good) ∧ (served (ss.map (·.x))).length = 5 := by
   intro ss
   refine ⟨?_, by decide⟩
   intro s hs
   simp only [ss, List.mem_cons, List.not_mem_nil, or_false] at hs
-  rcases hs with rfl | rfl | rfl | rfl
-  · exact ⟨Ex.evalChunked, rfl, rulesOK_nil rfl, by decide, by decide, by decide, by decide, by decide, by decide⟩
-  · exact ⟨Ex.evalLen, rfl, rulesOK_nil rfl, by decide, by decide, by decide, by decide, by decide, by decide⟩
-  · exact ⟨Ex.evalNotMod, rfl, rulesOK_nil rfl, by decide, by decide, by decide, by decide, by decide, by decide⟩
-  · exact ⟨Ex.evalEof, rfl, rulesOK_nil rfl, by decide, by decide, by decide, by decide, by decide, by decide⟩
+  rcases hs with rfl | rfl | rfl | rfl | rfl
+  · exact ⟨Ex.evalChunked, rfl, rulesOK_nil rfl, by decide, by decide, by decide, by decide⟩
+  · exact ⟨Ex.evalLen, rfl, rulesOK_nil rfl, by decide, by decide, by decide, by decide⟩
+  · exact ⟨Ex.evalGzLen, rfl, rulesOK_nil rfl, by decide, by decide, by decide, by decide⟩
+  · exact ⟨Ex.evalHoTrailer, rfl, rulesOK_nil rfl, by decide, by decide, by decide, by decide⟩
+  · exact ⟨Ex.evalEof, rfl, rulesOK_nil rfl, by decide, by decide, by decide, by decide⟩
 
 /-! ## E. incremental delivery (`patternFlushWriter`) -/
 
